@@ -119,10 +119,11 @@ def template_source(prog, chk):
     chk.floor("A13.raw-registration", min(len(gets), len(ups), len(gens)), 1, "get_element/update_element/generate_events in process_tags")
     if gets and ups and gens:
         gb, gt, _ = gets[0]
-        sw = R.find_switch_on_discr(pt, gt["t"], gt["dest"][0])
+        # the first test of "is this tag an element" after get_element (directly, through `&el`, or on a moved copy)
+        sws = [(sb, st) for (sb, st) in R.discr_switches_of(pt, gt["dest"][0]) if pt.dominates(gb, sb)]
+        sws = [x for x in sws if not any(y is not x and pt.dominates(y[0], x[0]) for y in sws)]
         ok = False
-        if sw:
-            sb, st = sw
+        for (sb, st) in sws:
             some_t = [tgt for v, tgt in st["vals"] if v == 1]
             if some_t:
                 r = pt.reach(some_t, avoid={b for (b, _, _) in ups})
